@@ -239,6 +239,36 @@ func c07History(c *vc.Ctx, idx int) {
 		c.Inconclusive("FinalizeBlock failed on the primary (reported under C13): %v", cr)
 	}
 	bm := newBridgeModel(c.Seed, h.ch.W.BtcKey)
+	// the bridge workload of C03/C05 as traffic: deposits and withdrawals in every stage, with every perturbation those
+	// checks use (wrong headers, proofs, scripts, fees, ids in other states ...), so that failing bridge messages are
+	// followed by later uses of the same heights, ids and batches. Their own oracles are not reported here.
+	bh := newBridgeHist(h)
+	bh.quiet = true
+	wm := newWdMon(bh)
+	muts := c03Mutators()
+	var addrPool []addrCase
+	for _, ac := range c17AddrCases(c.Seed, 17000+idx, 1, regtest) {
+		if ac.Str != "" && ac.Expect != 2 {
+			addrPool = append(addrPool, ac)
+		}
+	}
+	expectOf := map[string]addrCase{}
+	for _, ac := range addrPool {
+		expectOf[ac.Str] = ac
+	}
+	wm.classify = func(a string) []byte {
+		if ac, ok := expectOf[a]; ok {
+			if ac.Expect == 1 {
+				return ac.Script
+			}
+			return nil
+		}
+		sc, _, err := scriptOfAddress(a)
+		if err != nil {
+			return nil
+		}
+		return sc
+	}
 	var hot []int64
 	primary := map[int64]world.Outcome{}
 	for b := 0; b < cfg.Blocks && !h.failed; b++ {
@@ -256,9 +286,6 @@ func c07History(c *vc.Ctx, idx int) {
 			if err == nil {
 				num, seq, _ := h.ch.Account(g.Proposer.Addr)
 				var txs [][]byte
-				good, _ := bm.payload("hashes", g.Proposer.AddrStr, b)
-				v, _ := h.ch.QuorumVote(g, good)
-				setVote(good, v)
 				bad, _ := bm.payload("consolidation", g.Proposer.AddrStr, b)
 				v2, _ := h.ch.QuorumVote(g, bad)
 				v2.Sequence += 7
@@ -277,21 +304,16 @@ func c07History(c *vc.Ctx, idx int) {
 					multi.Deposits = append(multi.Deposits, &bitcointypes.Deposit{Version: uint32(k % 2), BlockNumber: hh, TxIndex: uint32(k), NoWitnessTx: make([]byte, 100+k), EvmAddress: make([]byte, 20), RelayerPubkey: h.ch.W.BtcKey})
 				}
 				multiHot = true
-				for i, m := range []sdkMsg{good, bad, dep, multi} {
+				for i, m := range []sdkMsg{bad, dep, multi} {
 					raw, err := h.ch.W.SignTx(world.TxSpec{Msgs: []sdkMsg{m}, Priv: g.Proposer.Tx, AccNum: num, Seq: seq + uint64(i)})
 					if err == nil {
 						txs = append(txs, raw)
 					}
 				}
 				h.ch.Inject(txs...)
-				h.hookAfter = func(blk *world.Block) {
-					if len(blk.Resp.TxResults) > 1 && blk.Resp.TxResults[1].Code == 0 {
-						bm.accepted(good)
-					}
-				}
 			}
 		}
-		h.extra = func(o *blockOps) {
+		hotBatch := func(o *blockOps) {
 			if !extraHot {
 				return
 			}
@@ -311,13 +333,22 @@ func c07History(c *vc.Ctx, idx int) {
 			o.locks = append(o.locks, ls...)
 			o.Desc = append(o.Desc, fmt.Sprintf("hot lock batch over %d validators with one failing entry", len(ls)))
 		}
-		if !h.step() {
-			break
-		}
-		h.extra = nil
-		if h.hookAfter != nil {
-			h.hookAfter(h.blk)
-			h.hookAfter = nil
+		if b%5 == 2 || h.ch.Height == 0 {
+			h.extra = hotBatch
+			if !h.step() {
+				break
+			}
+			h.extra = nil
+		} else {
+			if !bh.refreshGroup() {
+				break
+			}
+			c03Gen(bh, b, muts)
+			c05Gen(wm, b, cfg.Blocks, idx, addrPool)
+			bh.extraLocking = hotBatch
+			if !bh.runBlock() {
+				break
+			}
 		}
 		blk := h.blk
 		primary[blk.Height] = world.OutcomeOf(blk.Height, blk.Resp, blk.ELCalls, nil)
